@@ -151,8 +151,12 @@ def check_producer(ctx, t, tag, compress, p8png):
     # the writer's own packaging, when it chooses the compressed form
     if len(stream) < len(t) and b'\r' not in t and b'\x00' not in t:
         try:
-            a2 = p8png.get_bytes_from_code(t)
-            n3, got3, cs3 = p8png.get_code_from_bytes(a2, 8)
+            # the writer's packaging takes an optional version (None: unknown, any non-zero version: compressed when smaller); the
+            # reader is given the same value
+            ver = (8, None, 33, 1, None, 255)[ctx.monitors.get('writer_packaging_compared', 0) % 6]
+            ctx.feature('packaging_version:%s' % ver)
+            a2 = p8png.get_bytes_from_code(t) if ver == 8 else p8png.get_bytes_from_code(t, ver)
+            n3, got3, cs3 = p8png.get_code_from_bytes(a2, ver)
         except Exception as e:
             ctx.violation('get_bytes_from_code/get_code_from_bytes raised %r' % (e,), case)
             return
